@@ -10,6 +10,7 @@ from concurrent.futures import ThreadPoolExecutor
 
 from sim import registry
 from sim.kernel import cjson, sha, TRACE_FORMAT
+from sim.minimise import failure_class
 
 VERIF = os.path.dirname(os.path.dirname(os.path.abspath(__file__)))
 PY = os.environ.get("DSW_VERIF_PYTHON", "/venv/bin/python")
@@ -181,7 +182,7 @@ def minimise_and_confirm(prop, trace, tmpdir, tag):
         if rc == 0 and os.path.exists(outp):
             with open(outp) as f:
                 rep = json.load(f)
-            if rep["violation"] is not None and rep["violation"]["clause"] == trace["clause"]:
+            if rep["violation"] is not None and failure_class(rep["violation"]) == failure_class(trace["violation"]):
                 if attempt == 1:
                     note = (note or "") + " minimised trace did not reproduce in a fresh process; unminimised trace kept"
                 return tr, True, note
@@ -239,7 +240,7 @@ def check(prop, tier, seed=0, workers=None, n_runs=None, write_evidence=True):
                 known_hits.setdefault(entry["id"], [entry, 0])[1] += 1
             else:
                 new_by_sig.setdefault(signature(v["violation"]), []).append(v)
-        reported = []
+        reported, seen_final = [], {}
         for sig in sorted(new_by_sig)[:6]:
             group = sorted(new_by_sig[sig], key=lambda v: (len(cjson(v["ops"])), v["seed"]))
             v = group[0]
@@ -257,11 +258,16 @@ def check(prop, tier, seed=0, workers=None, n_runs=None, write_evidence=True):
             if entry is not None:
                 known_hits.setdefault(entry["id"], [entry, 0])[1] += len(group)
                 continue
+            final_sig = signature(final["violation"])
+            if final_sig in seen_final:
+                seen_final[final_sig][2] += len(group)
+                continue
             name = "auto-%s-seed%d-%s.json" % (tier, v["seed"], sha(sig)[:8])
             path = os.path.join(replay_dir, name)
             with open(path, "w") as f:
                 json.dump(final, f, indent=1, sort_keys=True)
-            reported.append((path, final, len(group)))
+            reported.append([path, final, len(group)])
+            seen_final[final_sig] = reported[-1]
     wall = time.time() - t0
     for ident in sorted(known_hits):
         entry, count = known_hits[ident]
